@@ -192,6 +192,9 @@ InitRaw ==
           subject = RawSubject("10", "signed", "json", c, "none") @@ [op |-> op]
     \/ \E c1 \in KeyClasses, c2 \in KeyClasses \cup {"none"} \cup DupKeyClasses, op \in KeyOps \cup {Dec("ServerKeys")} :
           subject = RawSubject("10", "keys", "json", c1, c2) @@ [op |-> op]
+    \* the key-ID-shape x key-length x place dimension of a key response (f1.kind carries the place)
+    \/ \E c1 \in KeyIdShapes, c2 \in KeyIdLens, pl \in KeyIdPlaces, op \in KeyOps \cup {Dec("ServerKeys")} :
+          subject = RawSubject("10", "keyid", pl, c1, c2) @@ [op |-> op]
     \/ \E c \in HeaderClasses, op \in HeaderOps :
           subject = RawSubject("10", "header", "json", c, "none") @@ [op |-> op]
     \/ \E hs \in HdrSeqs :
